@@ -912,3 +912,23 @@ mod tests {
         }
     }
 }
+
+/// Verification hooks (compiled only with `--cfg libp2p_verif`).
+#[cfg(libp2p_verif)]
+pub mod verif_hooks {
+    /// `validate_rpc_limits` on the given receive buffer; `Err` is reduced to its kind.
+    pub fn validate_rpc_limits(
+        buf: &[u8],
+        max_message_size: usize,
+        max_publish_messages: usize,
+        max_control_message_size: usize,
+    ) -> Result<bool, std::io::ErrorKind> {
+        super::validate_rpc_limits(
+            buf,
+            max_message_size,
+            max_publish_messages,
+            max_control_message_size,
+        )
+        .map_err(|e| e.kind())
+    }
+}
